@@ -15,7 +15,13 @@ against a fresh session and reports to the Recorder.  Steps:
   reply  (mode ok | error | progress)          router reply to the pending request ``to``
   event / invoke                               EVENT / INVOCATION for a live subscription / registration
   violate (unknown-id | wrong-type | duplicate) a reply that matches no pending request (last step)
+
+A reply / event / invoke step may carry ``"then": <request step>``: that request is issued from INSIDE the callback the
+router message triggers (completion callback of the answered request, its on_progress handler, the event handler, the
+endpoint) - i.e. while the session is still dispatching the message; ``"cut": f`` delivers a reply in two reads.
 """
+
+import copy
 
 import txaio
 
@@ -41,6 +47,10 @@ OPT_DEFAULTS = {
 }
 PUBLISH_LIST_OPTS = ("exclude", "exclude_authid", "exclude_authrole", "eligible", "eligible_authid", "eligible_authrole")
 PUBLISH_FLAG_OPTS = ("acknowledge", "exclude_me", "retain")
+# options that travel under their own name and unchanged (documented by the option classes: application transaction hash,
+# router-to-router forwarding chain, disclosed caller identity of a forwarded call)
+PUBLISH_PASS_OPTS = ("transaction_hash", "forward_for")
+CALL_PASS_OPTS = ("transaction_hash", "forward_for", "caller", "caller_authid", "caller_authrole")
 
 
 # ---------------------------------------------------------------------------------------------
@@ -91,19 +101,22 @@ def expected_options(kind, opts):
             o["timeout"] = opts["timeout"]
         if opts.get("on_progress"):
             o["receive_progress"] = True
+        for k in CALL_PASS_OPTS:
+            if opts.get(k) is not None:
+                o[k] = opts[k]
     elif kind == "publish":
-        for k in PUBLISH_FLAG_OPTS:
+        for k in PUBLISH_FLAG_OPTS + PUBLISH_PASS_OPTS:
             if opts.get(k) is not None:
                 o[k] = opts[k]
         for k in PUBLISH_LIST_OPTS:
             if opts.get(k) is not None:
                 o[k] = opts[k] if isinstance(opts[k], list) else [opts[k]]
     elif kind == "subscribe":
-        for k in ("match", "get_retained"):
+        for k in ("match", "get_retained", "forward_for"):
             if opts.get(k) is not None:
                 o[k] = opts[k]
     elif kind == "register":
-        for k in ("match", "invoke", "concurrency", "force_reregister"):
+        for k in ("match", "invoke", "concurrency", "force_reregister", "forward_for"):
             if opts.get(k) is not None:
                 o[k] = opts[k]
     return o
@@ -130,13 +143,16 @@ def build_options(kind, opts, handlers):
             kw["timeout"] = opts["timeout"]
         if opts.get("details") is not None:
             kw["details"] = opts["details"]
+        for k in CALL_PASS_OPTS:
+            if opts.get(k) is not None:
+                kw[k] = copy.deepcopy(opts[k])
         return T.CallOptions(**kw)
     if kind == "publish":
-        return T.PublishOptions(**{k: v for k, v in opts.items() if v is not None})
+        return T.PublishOptions(**{k: copy.deepcopy(v) for k, v in opts.items() if v is not None})
     if kind == "subscribe":
-        return T.SubscribeOptions(**{k: v for k, v in opts.items() if v is not None})
+        return T.SubscribeOptions(**{k: copy.deepcopy(v) for k, v in opts.items() if v is not None})
     if kind == "register":
-        return T.RegisterOptions(**{k: v for k, v in opts.items() if v is not None})
+        return T.RegisterOptions(**{k: copy.deepcopy(v) for k, v in opts.items() if v is not None})
     raise ValueError(kind)
 
 
@@ -202,6 +218,8 @@ class Req:
         self.live = False          # events / invocations may be sent
         self.calls = []            # handler / endpoint invocations of THIS request's callable
         self.of = None
+        self.nested = None         # request step to issue from inside this request's next callback
+        self.nested_hooked = False
 
 
 class Abort(Exception):
@@ -241,6 +259,9 @@ class Run:
         self.step_i = -1
         self.hook = AttemptHook.get()
         self.inv_seen = set()
+        self.orphans = {}
+        self.nested_issued = []
+        self.tolerated = dict.fromkeys(KINDS, 0)     # records the library kept after a subscribe/register whose send() raised (grey zone)
 
     # -- reporting ------------------------------------------------------------------------------
     def v(self, key, what, **detail):
@@ -254,6 +275,8 @@ class Run:
         kw = {}
         if cfg["transport"] == "websocket":
             kw["ws_options"] = {"failByDrop": bool(cfg.get("fail_by_drop", True))}
+        elif cfg.get("rs_max_exp"):
+            kw["router_max_len_exp"] = cfg["rs_max_exp"]      # RawSocket: the router accepts messages up to 2**exp octets only
         cls = _session_class()
         self.rp = RouterPeer(lambda: cls(), transport=cfg["transport"], serializer=cfg["serializer"], **kw)
         self.hook.reset()
@@ -287,7 +310,7 @@ class Run:
         return {l: (len(r.outcome.results) if r.outcome else 0, len(r.progress), len(r.calls)) for l, r in self.reqs.items()}
 
     def model_sizes(self):
-        sz = dict.fromkeys(KINDS, 0)
+        sz = dict(self.tolerated)
         for r in self.reqs.values():
             if r.status == "pending":
                 sz[r.kind] += 1
@@ -350,6 +373,13 @@ class Run:
 
     # -- API requests ---------------------------------------------------------------------------
     def do_request(self, st):
+        snap = self.snap()
+        rq = self.api_call(st)
+        if rq is not None:
+            self.verify_request(rq, snap)
+
+    def api_call(self, st, nested=False):
+        """Invoke the API for one request step.  Returns the model record, or None when nothing was issued."""
         R = self.R
         kind = st["op"]
         label = st["n"]
@@ -361,9 +391,11 @@ class Run:
 
         def on_progress(*a, **k):
             rq.progress.append((a, k))
+            self.fire_nested(rq, "progress")
 
         def handler(*a, **k):
             rq.calls.append((a, k))
+            self.fire_nested(rq, "handler")
             return "ret:%s:%d" % (label, len(rq.calls))
 
         target = None
@@ -371,10 +403,9 @@ class Run:
             target = self.reqs.get(st["of"])
             if target is None or target.obj is None or not target.live:
                 R.count("skipped_steps")
-                return
+                return None
             rq.of = target
         self.reqs[label] = rq
-        snap = self.snap()
         try:
             o = build_options(kind, opts, {"on_progress": on_progress}) if kind in ("call", "publish", "subscribe", "register") else None
             if kind == "call":
@@ -393,10 +424,12 @@ class Run:
                 ret = target.obj.unregister()
         except Exception as e:
             rq.status = "broken"
-            self.v("%s/request/api-raised/%s" % (kind, type(e).__name__), "API call raised on a valid request: %r" % (e,))
-            self.rp.recv()
+            self.v("%s/request/api-raised/%s" % (kind, type(e).__name__), "API call raised on a valid request%s: %r" % (
+                " (issued from inside a callback)" if nested else "", e))
+            if not nested:
+                self.rp.recv()
             self.dead = True
-            return
+            return None
         R.count("requests_issued_" + ("publish_unack" if kind == "publish" and not (opts or {}).get("acknowledge") else kind))
         R.seen("option_combos", "%s:%s" % (kind, ",".join(sorted(k for k, x in (opts or {}).items() if x is not None and x is not False)) or "-"))
         acked = kind != "publish" or bool((opts or {}).get("acknowledge"))
@@ -413,11 +446,20 @@ class Run:
             rq.status = "unack"
             if ret is not None:
                 self.v("publish/request/unacknowledged-returned-%s" % type(ret).__name__, "unacknowledged publish returned %r" % (ret,))
-        # -- exactly one request message, fresh id, faithful content
-        msgs = self.rp.recv()
+        return rq
+
+    def verify_request(self, rq, snap, msgs=None, where="request"):
+        """Exactly one request message, fresh id, faithful content; nothing else changed."""
+        R = self.R
+        kind = rq.kind
+        st = rq.spec
+        args = [jd(x) for x in st.get("args") or []]
+        kwargs = {k: jd(x) for k, x in (st.get("kwargs") or {}).items()}
+        if msgs is None:
+            msgs = self.rp.recv()
         R.count("wire_requests_compared")
         if len(msgs) != 1:
-            self.v("%s/request/%s" % (kind, "not-sent" if not msgs else "sent-%d-messages" % len(msgs)),
+            self.v("%s/%s/%s" % (kind, where, "not-sent" if not msgs else "sent-%d-messages" % len(msgs)),
                    "expected exactly one request message on the wire, saw %d" % len(msgs), msgs=short(msgs))
             if not msgs:
                 if rq.status == "pending":
@@ -425,7 +467,9 @@ class Run:
                 self.dead = True
                 return
         m = msgs[0]
-        self.check_wire(rq, m, args, kwargs, opts)
+        self.check_wire(rq, m, args, kwargs, st.get("opts"))
+        if snap is None:
+            return
         self.world_settle()
         if rq.outcome is not None and rq.outcome.results:
             self.v("%s/request/completed-before-reply" % kind, "future completed before any reply was sent",
@@ -436,6 +480,41 @@ class Run:
             self.v("%s/request/transport-failed" % kind, "transport failed while issuing a request: %r" % (f,))
             self.dead = True
         self.check_tables("after %s request" % kind)
+
+    # -- requests issued from INSIDE a callback (completion callback of a reply / event handler) ------------------
+    def arm_nested(self, rq, site, then):
+        """``then`` (a request step) will be issued by rq's own callback: site = completion | handler | progress."""
+        rq.nested = (site, then)
+        if site == "completion" and not rq.nested_hooked:
+            rq.nested_hooked = True
+            if txaio.using_twisted:
+                rq.fut.addBoth(lambda _: self.fire_nested(rq, "completion"))
+            else:
+                rq.fut.add_done_callback(lambda _: self.fire_nested(rq, "completion"))
+
+    def fire_nested(self, rq, site):
+        if rq.nested is None or rq.nested[0] != site or self.dead:
+            return None
+        then = rq.nested[1]
+        rq.nested = None
+        self.R.count("nested_requests_issued")
+        nrq = self.api_call(then, nested=True)
+        if nrq is not None:
+            self.nested_issued.append((nrq, site))
+        return None
+
+    def take_nested(self, msgs, where):
+        """Match the request messages seen after a router message with the requests issued from inside callbacks."""
+        issued, self.nested_issued = self.nested_issued, []
+        rest = list(msgs)
+        for nrq, site in issued:
+            mine = [m for m in rest if isinstance(m, list) and len(m) > 1 and m[0] == REQ_CODE[nrq.kind]][:1]
+            for m in mine:
+                rest.remove(m)
+            self.verify_request(nrq, None, msgs=mine, where="nested-request")
+            self.R.count("nested_requests_verified")
+            self.R.seen("nested_sites", "%s-from-%s-of-%s" % (nrq.kind, site, where))
+        return rest
 
     def world_settle(self):
         self.rp.world.settle()
@@ -467,6 +546,10 @@ class Run:
             elif wid != expect:
                 self.v("%s/request/id-not-sequential" % kind, "request id %d, expected %d (sequential from 1 within the session)" % (wid, expect),
                        msg=short(m))
+            if wid == MAXID:
+                self.R.count("ids_at_2^53")
+            if self.last_id == MAXID and wid == 1:
+                self.R.count("ids_wrapped_to_1")
             self.seen_ids.add(wid)
             self.last_id = wid
             self.gap_ok = False
@@ -506,22 +589,39 @@ class Run:
         R = self.R
         kind = st["kind"]
         s = self.s
+        where = st.get("where", "args")
+        uri = "com.c04.unserializable"
+        if where == "oversize":
+            # RawSocket only: the message is larger than what the router announced in its handshake -> send() raises
+            if self.cfg["transport"] != "rawsocket" or not self.cfg.get("rs_max_exp"):
+                R.count("skipped_steps")
+                return
+            big = "y" * (2 ** self.cfg["rs_max_exp"] + 64)
+            args, kwargs = [big], {}
+            if kind in ("subscribe", "register"):
+                uri = "com.c04.big." + big
+        else:
+            bad = object()
+            args, kwargs = ([bad], {}) if where == "args" else (["x"], {"k": bad})
         snap = self.snap()
-        bad = object()
-        args, kwargs = ([bad], {}) if st.get("where", "args") == "args" else (["x"], {"k": bad})
         ret, exc = None, None
         try:
             if kind == "call":
-                ret = s.call("com.c04.unserializable", *args, **kwargs)
+                ret = s.call(uri, *args, **kwargs)
+            elif kind == "subscribe":
+                ret = s.subscribe(lambda *a, **k: None, uri)
+            elif kind == "register":
+                ret = s.register(lambda *a, **k: None, uri)
             else:
                 from autobahn.wamp.types import PublishOptions
                 if st.get("ack"):
                     kwargs = dict(kwargs, options=PublishOptions(acknowledge=True))
-                ret = s.publish("com.c04.unserializable", *args, **kwargs)
+                ret = s.publish(uri, *args, **kwargs)
         except Exception as e:
             exc = e
         R.count("send_failures_injected")
-        R.seen("send_failure_exceptions", type(exc).__name__)
+        R.count("send_failures_" + ("oversize" if where == "oversize" else "unserializable"))
+        R.seen("send_failure_exceptions", "%s:%s:%s" % (kind, where if where == "oversize" else "unserializable", type(exc).__name__))
         msgs = self.rp.recv()
         if msgs:
             self.v("%s/send-failure/message-on-wire" % kind, "a request with an un-serializable payload produced wire messages", msgs=short(msgs))
@@ -543,7 +643,15 @@ class Run:
         t = getattr(s, TABLE[kind], None)
         if t is not None:
             R.count("send_failure_tables_checked")
-            if len(t) != want[kind]:
+            if kind in ("subscribe", "register") and len(t) == want[kind] + 1:
+                # grey zone (see ASSUMPTIONS): nothing was returned to the application, the statement is silent about the internal record
+                self.tolerated[kind] += 1
+                R.seen("send_failure_record_retained", kind)
+                for rec in t.values():
+                    fut = getattr(rec, "on_reply", None)
+                    if is_future(fut) and id(fut) not in self.orphans and all(r.fut is not fut for r in self.reqs.values()):
+                        self.orphans[id(fut)] = Outcome(fut)      # observe only: it must never be resolved with a value
+            elif len(t) != want[kind]:
                 self.v("%s/send-failure/pending-retained" % kind, "session.%s keeps %d entries after a failed send (model: %d)" % (
                     TABLE[kind], len(t), want[kind]))
                 self.dead = True
@@ -592,20 +700,30 @@ class Run:
         what = "reply-%s" % mode
         opts = rq.spec.get("opts") or {}
         snap = self.snap()
-        self.rp.send(msg)
+        if st.get("then") and st["then"]["n"] not in self.reqs:
+            self.arm_nested(rq, "progress" if mode == "progress" else "completion", st["then"])
+        cut = st.get("cut")
+        if cut is not None:
+            # the reply arrives in two TCP reads
+            self.rp.send(msg, seg=lambda d: [d[:max(1, min(len(d) - 1, int(len(d) * cut)))], d[max(1, min(len(d) - 1, int(len(d) * cut))):]])
+            R.count("replies_split_across_reads")
+        else:
+            self.rp.send(msg)
         self.nontrivial = True
         f = self.failed()
         if f:
             cls = ""
             if rq.kind == "call":
-                cls = "/%s/%s" % ("+".join(k for k in ("details", "on_progress") if opts.get(k)) or "plain", self.shape_class(args, kwargs))
+                # mechanism class: which client-side call options were set x is the optional ArgumentsKw element on the wire
+                cls = "/%s/%s" % ("+".join(k for k in ("details", "on_progress") if opts.get(k)) or "plain",
+                                  "kwargs-absent" if kwargs is None else "kwargs-present")
             self.v("%s/%s/transport-failed%s" % (rq.kind, what, cls),
                    "a valid reply for a pending request failed the transport instead of being delivered: %r" % (f,), msg=short(msg),
-                   user_errors=short(self.s.user_errors))
+                   shape=self.shape_class(args, kwargs), user_errors=short(self.s.user_errors))
             R.seen("close_codes", "valid:%s" % f.get("code"))
             self.dead = True
             return
-        extra = self.rp.recv()
+        extra = self.take_nested(self.rp.recv(), what)
         if extra:
             self.v("%s/%s/unexpected-wire-message" % (rq.kind, what), "the session sent messages in reaction to a reply", msgs=short(extra))
         if mode == "progress":
@@ -721,12 +839,16 @@ class Run:
         kwargs = {k: jd(x) for k, x in (st.get("kwargs") or {}).items()}
         msg = [36, rq.assigned, st["pubid"], {}] + ([args, kwargs] if kwargs else ([args] if args else []))
         snap = self.snap()
+        if st.get("then") and st["then"]["n"] not in self.reqs:
+            self.arm_nested(rq, "handler", st["then"])
         self.rp.send(msg)
         if self.failed():
             self.v("event/transport-failed", "an EVENT for a live subscription failed the transport: %r" % (self.failed(),), msg=short(msg))
             self.dead = True
             return
-        self.rp.recv()
+        extra = self.take_nested(self.rp.recv(), "event")
+        if extra:
+            self.v("event/unexpected-wire-message", "the session sent messages in reaction to an EVENT", msgs=short(extra))
         if self.diff(snap, calls_for=rq.label, what="event", msg=msg):
             a, k = rq.calls[-1]
             k = dict(k)
@@ -749,12 +871,14 @@ class Run:
         kwargs = {k: jd(x) for k, x in (st.get("kwargs") or {}).items()}
         msg = [68, st["invid"], rq.assigned, {}] + ([args, kwargs] if kwargs else ([args] if args else []))
         snap = self.snap()
+        if st.get("then") and st["then"]["n"] not in self.reqs:
+            self.arm_nested(rq, "handler", st["then"])
         self.rp.send(msg)
         if self.failed():
             self.v("invocation/transport-failed", "an INVOCATION for a live registration failed the transport: %r" % (self.failed(),), msg=short(msg))
             self.dead = True
             return
-        out = self.rp.recv()
+        out = self.take_nested(self.rp.recv(), "invocation")
         for m in out:
             if isinstance(m, list) and m and m[0] in ALL_REQ_CODES:
                 self.v("invocation/request-message-sent", "an INVOCATION made the session send a request message", msg=short(m))
@@ -795,7 +919,11 @@ class Run:
             pend = {r.wid for r in self.reqs.values() if r.status == "pending"}
             wid = {"next": (1 if self.last_id == MAXID else self.last_id + 1), "far": min(MAXID, self.last_id + 1000 + n),
                    "max": MAXID}.get(how, self.last_id + 1)
-            if wid in pend or (st["kind"] == "unregister" and wid == 0):
+            if how == "unack":
+                # the id of an UNACKNOWLEDGED publish: it went over the wire, but no reply is pending for it
+                un = sorted(r.wid for r in self.reqs.values() if r.status == "unack" and r.wid is not None)
+                wid = un[n % len(un)] if un else None
+            if wid is None or wid in pend or (st["kind"] == "unregister" and wid == 0):
                 R.count("skipped_steps")
                 return
             msg, rname = self.reply_of_kind(st["kind"], wid, st.get("variant", "ok"), n)
@@ -908,6 +1036,9 @@ class Run:
             if att > 1:
                 self.v("%s/second-completion-attempt" % r.kind, "the library tried to complete the same future %d times" % att,
                        results=short(r.outcome.results))
+        for o in self.orphans.values():
+            if any(tag == "ok" for tag, _ in o.results):
+                self.v("send-failure/orphan-record-resolved", "the record kept after a failed send was later resolved with a value: %s" % short(o.results))
         for name, e in list(rp.world.escaped):
             self.v("escaped/%s/%s" % (getattr(e, "where", name).split(":")[0], type(e.exc).__name__), "exception reached the framework: %r" % (e,))
         s = getattr(self, "s", None)
